@@ -11,6 +11,7 @@ func All() map[string]func() *engine.Scenario {
 		"C04": C04,
 		"C05": C05,
 		"C06": C06,
+		"C09": C09,
 		"C10": C10,
 		"C12": C12,
 		"C14": C14,
